@@ -108,6 +108,7 @@ func init() {
 }
 
 func runC19(c *Ctx) {
+	c19MetaHeaderFields(c)
 	// Reversal is the mirror map (info field k <- n-1-k with ConsDir negated, hop
 	// field k <- h-1-k, CurrINF <- n-1-CurrINF, CurrHF <- h-1-CurrHF, nothing else),
 	// decided for 0..3 segments and 0..5 hops by the symbolic-store table shared
